@@ -175,6 +175,18 @@ fn build(v: &V) -> Value {
     }
 }
 
+fn contains_any(v: &V, kinds: &[V]) -> bool {
+    if kinds.contains(v) {
+        return true;
+    }
+    match v {
+        V::Array(c) | V::Tuple(c) => c.iter().any(|x| contains_any(x, kinds)),
+        V::Record(c) => c.iter().any(|(_, x)| contains_any(x, kinds)),
+        V::Tagged(_, x) => contains_any(x, kinds),
+        _ => false,
+    }
+}
+
 fn unrepresentable(v: &V) -> Option<&'static str> {
     match v {
         V::Closure => Some("Closure"),
@@ -329,6 +341,9 @@ fn show(v: &V) -> String {
 
 pub struct C20;
 impl C20 {
+    fn n_types_family(&self, tier: Tier) -> u64 {
+        space(tier).n_types as u64
+    }
     fn layout(&self, tier: Tier) -> (u64, u64, u64) {
         let sp = space(tier);
         let nv = sp.values.len() as u64;
@@ -344,19 +359,111 @@ impl Prop for C20 {
     }
     fn n_cases(&self, tier: Tier) -> u64 {
         let (nv, nl, _) = self.layout(tier);
-        nv + nl
+        nv + nl + self.n_types_family(tier) + nv
     }
     fn chunk(&self, _t: Tier) -> u64 {
         2000
     }
     fn run_case(&self, tier: Tier, idx: u64) -> CaseOut {
         let sp = space(tier);
-        let (nv, _nl, na) = self.layout(tier);
+        let (nv, nl, na) = self.layout(tier);
         let mut fails = vec![];
         let mut tags = vec![];
         let outcome;
         let repr;
-        if idx < nv {
+        if idx >= nv + nl + self.n_types_family(tier) {
+            // Value's own serde implementation (interpreter/serde_impl.rs)
+            let v = &sp.values[(idx - nv - nl - self.n_types_family(tier)) as usize];
+            let real = build(v);
+            repr = json!({"value_direct_serde": show(v)});
+            let refused_kind = contains_any(v, &[V::Closure, V::ExternalFn, V::Store]);
+            let opaque = contains_any(v, &[V::Fixpoint, V::ConstructorFn, V::ErrorV]);
+            match catch(|| bincode::serialize(&real)) {
+                Err(m) => {
+                    fails.push(Fail { clause: "value_serde_panic".into(), detail: m });
+                    outcome = "panic".into();
+                }
+                Ok(Err(_)) => {
+                    if !refused_kind {
+                        fails.push(Fail { clause: "value_serde_refused_representable".into(), detail: show(v) });
+                    }
+                    outcome = "direct_refused".into();
+                }
+                Ok(Ok(bytes)) => {
+                    if refused_kind {
+                        fails.push(Fail { clause: "value_serde_unrepresentable_not_refused".into(), detail: show(v) });
+                        outcome = "direct_altered".into();
+                    } else {
+                        match catch(|| bincode::deserialize::<Value>(&bytes)) {
+                            Err(m) => {
+                                fails.push(Fail { clause: "value_serde_decode_panic".into(), detail: m });
+                                outcome = "panic".into();
+                            }
+                            Ok(Err(e)) => {
+                                fails.push(Fail { clause: "value_serde_decode_error".into(), detail: e.to_string() });
+                                outcome = "decode_err".into();
+                            }
+                            Ok(Ok(back)) => {
+                                if opaque {
+                                    outcome = "direct_opaque_ok".into();
+                                } else {
+                                    match same(v, &back, &real) {
+                                        Ok(()) => outcome = "direct_roundtrip".into(),
+                                        Err(d) => {
+                                            fails.push(Fail { clause: "value_serde_roundtrip_differs".into(), detail: d });
+                                            outcome = "differs".into();
+                                        }
+                                    }
+                                }
+                            }
+                        }
+                    }
+                }
+            }
+        } else if idx >= nv + nl {
+            // Type's own serde implementation (types/serde_impl.rs)
+            let menu = type_menu();
+            let t = menu[(idx - nv - nl) as usize].clone();
+            repr = json!({"type_direct_serde": format!("{t}")});
+            let must_refuse = matches!(t, Type::Intermediate(_) | Type::TypeScheme(_));
+            match catch(|| bincode::serialize(&t)) {
+                Err(m) => {
+                    fails.push(Fail { clause: "type_serde_panic".into(), detail: m });
+                    outcome = "panic".into();
+                }
+                Ok(Err(_)) => {
+                    if !must_refuse {
+                        fails.push(Fail { clause: "type_serde_refused_representable".into(), detail: format!("{t}") });
+                    }
+                    outcome = "type_refused".into();
+                }
+                Ok(Ok(bytes)) => {
+                    if must_refuse {
+                        fails.push(Fail { clause: "type_serde_internal_not_refused".into(), detail: format!("{t}") });
+                        outcome = "type_altered".into();
+                    } else {
+                        match catch(|| bincode::deserialize::<Type>(&bytes)) {
+                            Err(m) => {
+                                fails.push(Fail { clause: "type_serde_decode_panic".into(), detail: m });
+                                outcome = "panic".into();
+                            }
+                            Ok(Err(e)) => {
+                                fails.push(Fail { clause: "type_serde_decode_error".into(), detail: e.to_string() });
+                                outcome = "decode_err".into();
+                            }
+                            Ok(Ok(back)) => {
+                                if back == t && format!("{back}") == format!("{t}") {
+                                    outcome = "type_roundtrip".into();
+                                } else {
+                                    fails.push(Fail { clause: "type_serde_roundtrip_differs".into(), detail: format!("{t} became {back}") });
+                                    outcome = "differs".into();
+                                }
+                            }
+                        }
+                    }
+                }
+            }
+        } else if idx < nv {
             let v = &sp.values[idx as usize];
             let real = build(v);
             repr = json!({"value": show(v)});
@@ -493,7 +600,7 @@ impl Prop for C20 {
         Descr {
             rule: format!(
                 "every interpreter::Value over leaves {{9 numbers incl. -0.0, two NaN payloads, +-inf, MAX, 5e-324; 5 strings incl. empty, non-ASCII, NUL, 4 KiB; Unit; Code; and each unrepresentable kind Closure, Fixpoint, ExternalFn, Store, ConstructorFn, ErrorV}} combined by Array/Tuple/Record(keys \"\",a,é)/TaggedUnion(tags 0,MAX): depth 1 width<=2, depth 2 width<=1{}: {nv} values through serialize_value/deserialize_value; \
-                 plus {nl} argument lists of length 0..2 ({na} element values x {} types incl. Intermediate and TypeScheme) through serialize_macro_args/deserialize_macro_args. Index = position in the enumeration (injective).",
+                 plus {nl} argument lists of length 0..2 ({na} element values x {} types incl. Intermediate and TypeScheme) through serialize_macro_args/deserialize_macro_args; plus every type of the menu and every value again through their own serde implementations (bincode), where Intermediate/TypeScheme resp. Closure/ExternalFn/Store must be refused. Index = position in the enumeration (injective).",
                 if tier == Tier::Thorough { ", depth 2 width 2 over small children, depth 3 width 1" } else { "" },
                 sp.n_types
             ),
